@@ -315,7 +315,7 @@ META = {
                    "value). It must parse as JSON whatever the holes contain; every number hole's conversion is checked for exactness by a z3 Float64 "
                    "query (two distinct doubles rendered to the same decimal), every raw string hole inside a JSON string by a z3 string-language query; the "
                    "parsed document is fed to the real from_json and compared (IDs incl. quotes/backslashes/control characters/non-ASCII, nested / null / numpy "
-                   "metadata, type, generated-by, creation date, every value by the solver); streamed and returned forms must parse to equal documents.",
+                   "metadata, type, generated-by, creation date, every value by the solver); streamed and returned forms must parse to equal documents; the text is also read through parse_table (text / list of lines / handle) and load_table on a modelled file system (plain or gzip content under names with and without .gz); a concrete value facet covers shortest-repr texts in and out of exponent notation.",
     'encoded': {'biom/table.py': ['to_json', 'from_json', 'default', '_to_sparse', 'list_list_to_sparse', 'iter', '__getitem__'],
                 'biom/parse.py': ['parse_biom_table', 'load_table'], 'biom/util.py': ['biom_open', 'is_gzip']},
     'bounds': {'quick': {'shapes': '2x2 all sparsity patterns / index orders, <=1 explicit zero', 'header strings': 'symbolic, |s| <= 4'},
